@@ -8,6 +8,11 @@
 // -child, address space capped, deadline per case) so that a crash is an observation and a child that
 // does not answer is the observation `hung` (processing the range does not terminate).  Messages are
 // compared as (destination, nonce, content number): see fp.go.
+// Round 5: the destination chains of the rig hand every message to the REAL destination-side message
+// handlers of the EVM / Substrate / BTC executor packages (down.go); calldata ending at every field
+// boundary (bounds.go); concurrent cases - listener and retry message handler on the handler objects
+// they share, in a child of their own (conc.go); the generated cases are driven by four background
+// workers with a child each (prefetch below).
 package main
 
 import (
@@ -19,6 +24,8 @@ import (
 	"os"
 	"os/exec"
 	"sort"
+	"strings"
+	"sync"
 	"syscall"
 	"time"
 
@@ -56,6 +63,9 @@ type Event struct {
 type Case struct {
 	Path   string  `json:"path"` // EvmDeposits SubDeposits BtcDeposits EvmRetryV1 SubRetry
 	Events []Event `json:"events"`
+	// concurrent case (conc.go; plain-range paths only): the range is processed thousands of times by a
+	// listener goroutine and several route goroutines (retry messages) on the handler objects they share
+	Conc bool `json:"conc,omitempty"`
 }
 
 type DepObs struct {
@@ -89,6 +99,11 @@ type Obs struct {
 	Deps      [][]DepObs `json:"deps"`
 	// the batches HandleEvents pushed to the message channel (canonical order); null = a nil message
 	Sent [][]*SentMsg `json:"sent"`
+	// real destination-side message handlers (EVM / Substrate / BTC executor packages) that panicked on
+	// a message of the range when route handed it to them (down.go)
+	HPanics []HPanic `json:"hpanics,omitempty"`
+	// concurrent cases (conc.go): what the child did
+	Conc *ConcStats `json:"conc,omitempty"`
 }
 
 // ---- parent side: persistent child, one case per line ----------------------------------------------
@@ -99,7 +114,15 @@ type child struct {
 	out *bufio.Reader
 }
 
-var cur *child
+// worker: one persistent child and the cases it is given, one after the other.  The foreground worker
+// runs the corpus / replay cases; the generated cases are run by a few background workers as soon as
+// they are generated (prefetch below), run() then picks up the result.
+type worker struct{ cur *child }
+
+var (
+	fg      = &worker{}
+	workers []*worker
+)
 
 func startChild() *child {
 	exe, err := os.Executable()
@@ -139,18 +162,25 @@ func emptyDeps(c Case) [][]DepObs {
 // the run is not driven: against a change that makes every other range hang the quick check still
 // ends in about a minute.
 var (
+	hungMu       sync.Mutex
 	caseDeadline = 10 * time.Second
 	hungSeen     = 0
 )
+
+func hungState() (int, time.Duration) {
+	hungMu.Lock()
+	defer hungMu.Unlock()
+	return hungSeen, caseDeadline
+}
 
 const (
 	hungDeadline = 3 * time.Second
 	maxHung      = 4
 )
 
-func runOnce(c Case, deadline time.Duration) (o Obs, timedOut bool) {
-	if cur == nil {
-		cur = startChild()
+func (w *worker) runOnce(c Case, deadline time.Duration) (o Obs, timedOut bool) {
+	if w.cur == nil {
+		w.cur = startChild()
 	}
 	line, _ := json.Marshal(c)
 	type res struct {
@@ -158,7 +188,7 @@ func runOnce(c Case, deadline time.Duration) (o Obs, timedOut bool) {
 		err error
 	}
 	ch := make(chan res, 1)
-	ck := cur
+	ck := w.cur
 	go func() {
 		if _, err := ck.in.Write(append(line, '\n')); err != nil {
 			ch <- res{nil, err}
@@ -175,42 +205,136 @@ func runOnce(c Case, deadline time.Duration) (o Obs, timedOut bool) {
 				return o, false
 			}
 		}
-		cur.kill()
-		cur = nil
+		w.cur.kill()
+		w.cur = nil
 		return Obs{Crashed: true, Note: "child process died", Deps: emptyDeps(c), Groups: []Group{}}, false
 	case <-time.After(deadline):
-		cur.kill()
-		cur = nil
+		w.cur.kill()
+		w.cur = nil
 		return Obs{Hung: true, Note: fmt.Sprintf("processing the range does not terminate (no answer from the child within %v)", deadline),
 			Deps: emptyDeps(c), Groups: []Group{}}, true
 	}
 }
 
-func run(c Case) Obs {
+func (w *worker) runNow(c Case) Obs {
 	c = normalise(c)
-	if hungSeen >= maxHung {
-		return Obs{NotDriven: true, Note: fmt.Sprintf("not driven: %d cases of this run hung already", hungSeen), Deps: emptyDeps(c), Groups: []Group{}}
+	if c.Conc {
+		return runConc(c)
 	}
-	o, timedOut := runOnce(c, caseDeadline)
-	if timedOut && hungSeen == 0 {
-		if o2, again := runOnce(c, caseDeadline); !again {
+	seen, deadline := hungState()
+	if seen >= maxHung {
+		return Obs{NotDriven: true, Note: fmt.Sprintf("not driven: %d cases of this run hung already", seen), Deps: emptyDeps(c), Groups: []Group{}}
+	}
+	o, timedOut := w.runOnce(c, deadline)
+	if timedOut && seen == 0 {
+		if o2, again := w.runOnce(c, deadline); !again {
 			return o2
 		}
 	}
 	if timedOut {
+		hungMu.Lock()
 		hungSeen++
 		caseDeadline = hungDeadline
+		hungMu.Unlock()
 	}
 	if o.Crashed && o.Stuck {
 		// the child answered, but the consumer (Relayer.route) did not finish: its relayer is stuck,
 		// the next case gets a fresh child; counted like a hung case (each costs a whole deadline)
-		if cur != nil {
-			cur.kill()
-			cur = nil
+		if w.cur != nil {
+			w.cur.kill()
+			w.cur = nil
 		}
+		hungMu.Lock()
 		hungSeen++
+		hungMu.Unlock()
 	}
 	return o
+}
+
+// ---- prefetch ----------------------------------------------------------------------------------------
+// Every case is independent of every other (its own handler objects, its own content table; the child
+// keeps nothing between cases but the relayer rig).  vgen runs the cases one after the other; the
+// generated ones are handed to nWorkers background workers at the end of gen, keyed by their JSON.
+
+const nWorkers = 4
+
+type future struct {
+	done  chan struct{}
+	obs   Obs
+	crash interface{}
+}
+
+var (
+	preMu sync.Mutex
+	pre   = map[string]*future{}
+)
+
+func caseKey(c Case) string {
+	b, _ := json.Marshal(normalise(c))
+	return string(b)
+}
+
+func prefetch(cases []Case) {
+	var todo []Case
+	preMu.Lock()
+	for _, c := range cases {
+		k := caseKey(c)
+		if _, ok := pre[k]; ok {
+			continue
+		}
+		pre[k] = &future{done: make(chan struct{})}
+		todo = append(todo, c)
+	}
+	preMu.Unlock()
+	ch := make(chan Case)
+	for i := 0; i < nWorkers; i++ {
+		w := &worker{}
+		workers = append(workers, w)
+		go func() {
+			for c := range ch {
+				preMu.Lock()
+				f := pre[caseKey(c)]
+				preMu.Unlock()
+				func() {
+					defer func() {
+						if r := recover(); r != nil {
+							f.crash = r
+						}
+						close(f.done)
+					}()
+					f.obs = w.runNow(c)
+				}()
+			}
+		}()
+	}
+	go func() {
+		// the concurrent cases first: they take seconds, the others milliseconds
+		for _, c := range todo {
+			if c.Conc {
+				ch <- c
+			}
+		}
+		for _, c := range todo {
+			if !c.Conc {
+				ch <- c
+			}
+		}
+		close(ch)
+	}()
+}
+
+func run(c Case) Obs {
+	preMu.Lock()
+	f := pre[caseKey(c)]
+	preMu.Unlock()
+	if f == nil {
+		return fg.runNow(c)
+	}
+	<-f.done
+	if f.crash != nil {
+		panic(f.crash)
+	}
+	return f.obs
 }
 
 // ---- child side ------------------------------------------------------------------------------------
@@ -304,7 +428,30 @@ func coqItem(d Dep, do DepObs) string {
 	if kind == "KNone" && do.Out == "ok" && do.MNonce != nil && (d.Kind == "badlog" || d.Kind == "subbad") {
 		nonce = *do.MNonce
 	}
-	return fmt.Sprintf("(mkItem %s %s %s %s %s %s %s %s)", kind, vgen.N(uint64(d.Dest)), vgen.N(nonce), vgen.Hex(mustUnhex(data)), vgen.Hex(mustUnhex(hr)), meas, vgen.N(do.Fp), coqStatus(d.Status))
+	return fmt.Sprintf("(mkItem %s %s %s %s %s %s %s %s)", kind, vgen.N(uint64(d.Dest)), vgen.N(nonce), pkLit(mustUnhex(data)), pkLit(mustUnhex(hr)), meas, vgen.N(do.Fp), coqStatus(d.Status))
+}
+
+// pkLit: a byte string as a Lib/C06_Pack.v literal - its length and 7 bytes per primitive integer
+// (big-endian, the last one holds the rest).
+func pkLit(b []byte) string {
+	var sb strings.Builder
+	fmt.Fprintf(&sb, "(PK %d%%N [", len(b))
+	for i := 0; i < len(b); i += 7 {
+		end := i + 7
+		if end > len(b) {
+			end = len(b)
+		}
+		var v uint64
+		for _, x := range b[i:end] {
+			v = v<<8 | uint64(x)
+		}
+		if i > 0 {
+			sb.WriteString("; ")
+		}
+		fmt.Fprintf(&sb, "0x%x%%uint63", v)
+	}
+	sb.WriteString("])")
+	return sb.String()
 }
 
 func mustUnhex(s string) []byte {
@@ -320,7 +467,7 @@ func nf(x [2]uint64) string { return vgen.Pair(vgen.N(x[0]), vgen.N(x[1])) }
 func coq(c Case, o Obs) string {
 	if o.NotDriven {
 		// a filler: the empty range, on which nothing is demanded
-		return "Case " + c.Path + " [] false false false [] []"
+		return "Case " + c.Path + " [] false false false [] [] []"
 	}
 	c = normalise(c)
 	evs := make([]string, len(c.Events))
@@ -346,6 +493,9 @@ func coq(c Case, o Obs) string {
 				}
 				return vgen.Some(vgen.Pair(vgen.N(uint64(m.Dest)), nf([2]uint64{m.Nonce, m.Fp})))
 			})
+		}) + " " +
+		vgen.ListOf(o.HPanics, func(p HPanic) string {
+			return vgen.Pair(vgen.N(uint64(p.Kind)), vgen.Pair(vgen.N(uint64(p.Dest)), nf([2]uint64{p.Nonce, p.Fp})))
 		})
 }
 
@@ -368,6 +518,9 @@ func kind(c Case) string {
 		ks = append(ks, k)
 	}
 	sort.Strings(ks)
+	if c.Conc {
+		return c.Path + ":conc"
+	}
 	switch len(ks) {
 	case 0:
 		return c.Path + ":clean"
@@ -382,10 +535,16 @@ func main() {
 		childMain()
 		return
 	}
+	if len(os.Args) > 1 && os.Args[1] == "-conc" {
+		concMain()
+		return
+	}
 	defer func() {
-		if cur != nil {
-			cur.in.Close()
-			cur.kill()
+		for _, w := range append([]*worker{fg}, workers...) {
+			if w.cur != nil {
+				w.cur.in.Close()
+				w.cur.kill()
+			}
 		}
 	}()
 	vgen.Main(vgen.Spec[Case, Obs]{
@@ -395,7 +554,7 @@ func main() {
 		Run:       run,
 		Coq:       coq,
 		Kind:      kind,
-		ShardSize: 150,
+		ShardSize: 205, // quick tier: 12 shards = one wave of the orchestrator's 12 workers
 		NonTrivial: func(c Case, o Obs) bool {
 			// a range holding at least one poisoned and at least one healthy deposit
 			g, b := false, false
@@ -413,6 +572,6 @@ func main() {
 			}
 			return g && b
 		},
-		Rule: "per path (EVM/Substrate/BTC ProcessDeposits, EVM RetryV1, Substrate Retry): every poison of the catalogue (empty, 1 byte, guard-1, guard, length words 2^63-1 / 2^63 / 2^64-20 / 2^64+20 / 2^255 / 2^256-1, truncated tails, 1..31-byte handler responses, ERC1155 offsets outside, OP_RETURN of 0/1/2 bytes, no '_', non-numeric domain, ill-typed Substrate fields, unparsable logs, unknown resources; calldata lengths around every word boundary, 5000-byte calldata, Deposit logs with a hostile word in their ABI head or a cut tail, Substrate events with each field missing / nil / of another type / twice; OP_RETURN scripts that are not one direct push: OP_PUSHDATA1/2/4 with length 0 / exact / too long / cut, several pushes, lying length bytes, no OP_RETURN, 76..10000-byte payloads, non-ASCII / invalid UTF-8, several '_', two nulldata outputs, paying the bridge or not) at every position of a range of three healthy neighbours (quick tier: a sample of the round-4 shapes), every OP_RETURN script shape and every byte 0x00..0xff after OP_RETURN (alone, before and after a healthy payload) packed ten (thorough: three) to a block among healthy deposits, each poison alone at its destination among healthy deposits for other destinations, all-poison ranges, random ranges of 1..6 deposits in 1..3 events with several poisons, plus ranges whose deposits share field values (same nonce for another destination, same destination and nonce, same bytes with another nonce / destination, same recipient with another amount, a poison carrying a healthy deposit's nonce, byte-identical duplicates, a retried transaction / block named twice); HandleEvents is driven, every batch on the message channel is observed and routed through sygma-core's real Relayer.route in the child process; distinct = distinct input JSON; non-trivial = the range holds at least one poisoned and at least one well-formed deposit",
+		Rule: "per path (EVM/Substrate/BTC ProcessDeposits, EVM RetryV1, Substrate Retry): every poison of the catalogue (empty, 1 byte, guard-1, guard, length words 2^63-1 / 2^63 / 2^64-20 / 2^64+20 / 2^255 / 2^256-1, truncated tails, 1..31-byte handler responses, ERC1155 offsets outside, OP_RETURN of 0/1/2 bytes, no '_', non-numeric domain, ill-typed Substrate fields, unparsable logs, unknown resources; calldata lengths around every word boundary, 5000-byte calldata, Deposit logs with a hostile word in their ABI head or a cut tail, Substrate events with each field missing / nil / of another type / twice; OP_RETURN scripts that are not one direct push: OP_PUSHDATA1/2/4 with length 0 / exact / too long / cut, several pushes, lying length bytes, no OP_RETURN, 76..10000-byte payloads, non-ASCII / invalid UTF-8, several '_', two nulldata outputs, paying the bridge or not) at every position of a range of three healthy neighbours (quick tier: a sample of the round-4 shapes), every OP_RETURN script shape and every byte 0x00..0xff after OP_RETURN (alone, before and after a healthy payload) packed ten (thorough: three) to a block among healthy deposits, each poison alone at its destination among healthy deposits for other destinations, all-poison ranges, random ranges of 1..6 deposits in 1..3 events with several poisons, plus ranges whose deposits share field values (same nonce for another destination, same destination and nonce, same bytes with another nonce / destination, same recipient with another amount, a poison carrying a healthy deposit's nonce, byte-identical duplicates, a retried transaction / block named twice); plus (round 5) calldata that ends exactly at every field boundary of every handler kind, one byte before and one byte after it, and consistent deposits with each variable-length field in turn empty or one byte long (a generic deposit without execution data / function signature / depositor, ERC721 without metadata / recipient, ERC1155 of no tokens, ERC20 tails of 0 / 32 / 33 bytes, Substrate recipients of 0..21 bytes, BTC payloads cut at each part) packed eight (thorough: three) to a range among healthy deposits on every path; HandleEvents is driven, every batch on the message channel is observed and routed through sygma-core's real Relayer.route in the child process, where every message is handed to the REAL destination-side message handlers of all three chain kinds (EVM TransferMessageHandler, SubstrateMessageHandler, BTC FungibleMessageHandler; a panic there = the relayer would be dead); plus one concurrent case per chain kind (thorough: three; kind <path>:conc): a range of panicking / failing / filtered / garbage-yielding poisons among five healthy deposits processed ~9000 times by one listener goroutine (all event handlers of the chain) and five route goroutines (retry messages of every resource x destination through the chain's real RetryMessageHandler) on the handler objects they share as app.go wires them, in a child process of its own (GOMAXPROCS 4..8), every result compared with the sequential one; distinct = distinct input JSON; non-trivial = the range holds at least one poisoned and at least one well-formed deposit",
 	})
 }
